@@ -45,7 +45,10 @@ func c01Earlier(u *uhppote) {
 		who = vClient(&vDriver{err: errVerifNoReply}) // another client instance of the same process
 	}
 	// a request that fills bytes 8..27 with arbitrary values, and one that has a different shape
-	who.SetDoorPasscodes(nondetU32("earlier.id"), 1+nondetU8("earlier.door")%4, nondetU32("earlier.c1")%1000000, nondetU32("earlier.c2")%1000000, nondetU32("earlier.c3")%1000000, nondetU32("earlier.c4")%1000000)
+	door := nondetU8("earlier.door")
+	c1, c2, c3, c4 := nondetU32("earlier.c1"), nondetU32("earlier.c2"), nondetU32("earlier.c3"), nondetU32("earlier.c4")
+	verifAssume(door >= 1 && door <= 4 && c1 <= 999999 && c2 <= 999999 && c3 <= 999999 && c4 <= 999999)
+	who.SetDoorPasscodes(nondetU32("earlier.id"), door, c1, c2, c3, c4)
 	who.SetListener(nondetU32("earlier.id2"), netip.AddrPortFrom(netip.AddrFrom4([4]byte{nondetU8("earlier.a"), nondetU8("earlier.b"), 3, 4}), nondetU16("earlier.port")), nondetU8("earlier.interval"))
 }
 
